@@ -407,11 +407,37 @@ class MsgClient(Client):
             ok.res[n["_id"]] = "Z"
             bad.res[n["_id"]] = "NZ"
             return [ok, bad]
-        if n.get("fn") == "nni_msgq_tryput":
+        if n.get("fn") == "nni_msgq_tryput" and self._discarded(n):
             # a non-blocking put into a queue that may be full or closed, with the answer thrown away: both outcomes
             # are possible, and on the refused one the message is still the caller's
             return [ok, bad]
         return ok
+
+    def _discarded(self, n):
+        """the value of call n is not used by anything (a statement of its own, or under a (void) cast)"""
+        fn = self.fn
+        pos = None
+        for b in fn.blocks.values():
+            for i, e in enumerate(b.elems):
+                if e is n or (e is not None and e.get("_id") == n.get("_id")):
+                    pos = (b.id, i)
+        if pos is None:
+            return False
+        for b in fn.blocks.values():
+            for e in b.elems:
+                if e is None:
+                    continue
+                for m in walk(e):
+                    if m.get("k") == "ref" and (m["b"], m["i"]) == pos:
+                        if e.get("k") == "un" and e.get("op") == "(void)":
+                            continue
+                        return False
+            t = b.term
+            if t and isinstance(t.get("cond"), dict):
+                for m in walk(t["cond"]):
+                    if m.get("k") == "ref" and (m["b"], m["i"]) == pos:
+                        return False
+        return True
 
     def call(self, st, n, sim):
         fn = self.fn
